@@ -1,7 +1,8 @@
-\* C01 trace validation: the property's words (a well-formed RFC 1928 header and the unmodified payload)
+\* C01 trace validation: the property's words (a well-formed RFC 1928 header and the unmodified payload; closed = the read side saw eof / reset)
 SPECIFICATION Spec
 CONSTANTS
   HdrAddr = "any"
+  Stall = "note"
 CONSTRAINT Track
 POSTCONDITION Accepted
 CHECK_DEADLOCK FALSE
